@@ -104,4 +104,21 @@ RECURSIVE AttrEnd(_, _, _, _, _)
 AttrEnd(s, st, html, chk, fuel) ==
     LET r == AttrStep(s, st, html, chk) IN
     IF r.item.k = "None" \/ fuel = 0 THEN r.st ELSE AttrEnd(s, r.st, html, chk, fuel - 1)
+---------------------------------------------------------------------------
+(* Consumers of the iteration in the public API.                            *)
+\* Attributes::has_nil: "ignores any errors in attributes" - an attribute p:nil (p bound to the XMLSchema-instance
+\* namespace by the caller's reader) whose value is one of the two true literals, anywhere among the yielded items
+NIL_KEY == <<112, 58, 110, 105, 108>>
+HasNil(s, items) ==
+    \E i \in 1..Len(items) : /\ items[i].k = "Attr"
+                             /\ Slice(s, items[i].klo, items[i].khi) = NIL_KEY
+                             /\ Slice(s, items[i].vlo, items[i].vhi) \in {<<49>>, <<116, 114, 117, 101>>}
+\* BytesStart::try_get_attribute(name): iterates WITHOUT duplicate checks; the first error met before a match is returned
+RECURSIVE TryGetFrom(_, _, _, _)
+TryGetFrom(s, items, i, name) ==
+    IF i > Len(items) THEN <<"None", 0, 0, "">>
+    ELSE IF items[i].k = "Err" THEN <<"Err", items[i].p1, items[i].p2, items[i].e>>
+    ELSE IF items[i].k = "Attr" /\ Slice(s, items[i].klo, items[i].khi) = name THEN <<"Some", items[i].vlo, items[i].vhi, "">>
+    ELSE TryGetFrom(s, items, i + 1, name)
+TryGet(s, pos, name) == TryGetFrom(s, AttrAll(s, pos, FALSE, FALSE), 1, name)
 =============================================================================
